@@ -418,7 +418,7 @@ pub fn cmd_blocks(a: &Args) {
 			let js = render(&g.start);
 			let je = g.end.as_ref().map(render);
 			match real::write_slpp(g, Comp::None) {
-				Outcome::Ok(arch) => match real::read_slpp(&arch, false) {
+				Outcome::Ok(arch) => match real::read_slpp_frag(&arch, false, if k % 2 == 0 { Frag::Fixed(1) } else { Frag::Random(k as u64) }) {
 					Outcome::Ok(g2) => {
 						if render(&g2.start) != js || g2.end.as_ref().map(render) != je || g2.start.bytes.0 != start {
 							sink.report(&viol("blocks_through_slpp", &format!("start,len:{}", len), "mismatch", "start/end differ after the trip through start.raw / end.raw".into()), &|| json!({"start_block_hex": crate::util::hex(&start)}));
